@@ -286,11 +286,13 @@ func checkC36(c *Ctx) string {
 	for f := range mm {
 		mmNames = append(mmNames, f.Name())
 	}
+	checkEraseMigratesTail(c, "C36.8 K14 Erase keeps the elements after the erased one under their own keys")
+	checkKeyRouting(c, "C36.7 K14 an integer key is routed to the list part exactly when it is inside the list")
 	checkObjectListAndCounter(c, "C36.5 K5 list growth is followed by migrate", "C36.6 K5 copy-on-write ends with a fresh copy counter")
 	return fmt.Sprintf("Static clause of 'read-only objects reject every mutation': mustBeMutable panics on the readonly edge and returns only on the other; every store into SuObject.list (element, slice, append, copy, sort), "+
 		"SuObject.named (assignment or mutating method of the map type, found by effect) or SuObject.defval in package core is preceded on every path by a call, on the same object (root variable + field path; a record stands for r.ob), of a method that "+
 		"establishes mutability on all its paths (%d found by fixed point: %s); unexported functions may instead rely on their callers, which is checked at each call site transitively; objects allocated in the function (literal, new, "+
-		"result of a function returning a fresh object) are exempt; readonly is only ever assigned true; an object literal whose list/named derive from another object's list/named (not through Clone/Copy) carries that object's copyCount. Not decided: list/map semantics of the operations themselves (the rest of C36), aliases of an object under another variable.",
+		"result of a function returning a fresh object) are exempt; readonly is only ever assigned true; an object literal whose list/named derive from another object's list/named (not through Clone/Copy) carries that object's copyCount. Also: every growth of the list is followed by migrate() and leaving a shared copy counter by a fresh counter; get/has/set/delete/erase folded for integer keys -1, 0, len-1, len, len+1: the list part is used exactly for 0 <= key < len and the named part otherwise (a store at key == len appends); Erase moves exactly the elements after the erased one to the named part under their own index. Not decided: the remaining list/map semantics (sorting, ranges, iteration order, equality), aliases of an object under another variable.",
 		len(mm), strings.Join(sortedStrings(mmNames), ", "))
 }
 
